@@ -16,6 +16,7 @@ import re
 import random
 import vcommon as V
 import c05
+import c06
 import pipeline as PL
 import dsched
 import strax
@@ -145,6 +146,7 @@ class _Thrower:
 def pause_job(arg):
     sc, seeds = arg
     out = []
+    relay = None
     for seed in seeds:
         res = {}
         for n in (sc["n"], 2 * sc["n"]):
@@ -155,10 +157,17 @@ def pause_job(arg):
                     _o(s, t)
                     _w.sample()
                 dsched.Sched.step = step
+                tracer = PL.RelayTracer(("src", "pa", "pb"), sc) if sc["topo"] == "chain" and n == sc["n"] else None
                 try:
-                    obs = PL.run_scenario(dict(sc, n=n, sched="random"), schedule_seed=seed)
+                    if tracer is not None:
+                        with tracer:
+                            obs = PL.run_scenario(dict(sc, n=n, sched="random"), schedule_seed=seed, tracer=tracer)
+                    else:
+                        obs = PL.run_scenario(dict(sc, n=n, sched="random"), schedule_seed=seed)
                 finally:
                     dsched.Sched.step = orig_step
+                if tracer is not None and tracer.proc is not None:
+                    relay = c06.relay_record(dict(sc, n=n), tracer, dict(outcome="", orig=False))
             res[n] = dict(src_calls=obs["src_calls"], hang=obs["hang"], quiescent=bool(obs.get("quiescent")), outcome=obs["outcome"],
                           bad_advance=w.bad_advance[:3], over=[(k, v) for k, v in w.maxbox.items() if v[0] > v[1]])
         a, b = res[sc["n"]], res[2 * sc["n"]]
@@ -166,13 +175,54 @@ def pause_job(arg):
                                                  callsN=a["src_calls"], calls2N=b["src_calls"], n=sc["n"],
                                                  rest=bool(a["quiescent"] and b["quiescent"] and not a["hang"] and not b["hang"]),
                                                  over=bool(a["over"] or b["over"]), nodemand=bool(a["bad_advance"] or b["bad_advance"])),
-                        detail=dict(N=a, N2=b)))
+                        detail=dict(N=a, N2=b), relay=relay if sc["topo"] == "chain" else None))
+        relay = None
     return out
+
+
+def pipeline_model_job(arg):
+    ns, nch, caps, saved, ks, backpressure = arg
+    mc = (f"---- MODULE MC ----\nEXTENDS Pipeline\nFailDef == {V.to_tla(set(('pause', 0, k) for k in ks))}\nSavedDef == {V.to_tla(set(saved))}\n"
+          f"CapDef == {V.to_tla(set(caps))}\n====\n")
+    cfg = (f"SPECIFICATION Spec\nCONSTANTS NS = {ns} NChunks = {nch} MainKills = TRUE Backpressure = {V.to_tla(backpressure)} LazySet = {{TRUE, FALSE}}\n"
+           "CONSTANT FailSet <- FailDef\nCONSTANT Saved <- SavedDef\nCONSTANT CapSet <- CapDef\n"
+           "INVARIANT NoDeadlock\nINVARIANT EagerCap\nINVARIANT PauseBound\nPROPERTY LazyDemand\nPROPERTY Terminates\nCHECK_DEADLOCK FALSE\n")
+    d = V.stage_spec(["Pipeline"], {"MC.tla": mc, "MC.cfg": cfg})
+    r = V.run_tlc(d, "MC", "MC.cfg", workers=4, timeout=3000, heap="3g")
+    return dict(arg=arg, generated=r.generated, distinct=r.distinct, depth=r.depth, ok=r.ok, violated=r.violated or ("deadlock" if r.deadlock else None),
+                wall=r.wall, out=None if (r.ok or r.violated or r.deadlock) else r.out[-1500:])
+
+
+def pipeline_model(chk):
+    """Design level: spec/Pipeline.tla with a consumer that stops pulling after k chunks - all schedules, eager and lazy, for run lengths N
+    and 2N: capacity never exceeded, lazy gates pass only on demand, production bounded independently of the run length; without
+    backpressure the bounds must fail."""
+    quick = chk.tier == "quick"
+    work = []
+    for ns, saved in (((2, ()), (2, (1, 2))) if quick else ((2, ()), (2, (1, 2)), (3, ()), (3, (1, 3)))):
+        for nch in ((5, 10) if ns == 2 else (4, 8)):
+            work.append((ns, nch, (1, 2) if quick or ns == 3 else (1, 2, 3), saved, (1, 2), True))
+    work.append((2, 10, (1,), (), (1,), False))
+    res = V.pmap(pipeline_model_job, work, procs=4)
+    for r in res:
+        if r["out"]:
+            raise V.MachineryError("Pipeline.tla (pause) failed to run: " + r["out"])
+        a = r["arg"]
+        chk.states += r["distinct"]
+        chk.transitions += r["generated"]
+        chk.tlc_runs.append(dict(what=f"Pipeline.tla consumer pauses: NS={a[0]} NChunks={a[1]} caps={a[2]} saved={a[3]} pause after {a[4]} backpressure={a[5]}",
+                                 generated=r["generated"], distinct=r["distinct"], depth=r["depth"], ok=r["ok"], violated=r["violated"], wall_s=round(r["wall"], 1)))
+        if a[5] and r["violated"]:
+            chk.violation(f"C13:pipeline-model:{r['violated']}:NS{a[0]}:N{a[1]}:saved{a[3]}",
+                          f"spec/Pipeline.tla (NS={a[0]}, NChunks={a[1]}, caps={a[2]}, saved={a[3]}, pause after {a[4]}) violates {r['violated']}", dict(kind="model", arg=list(a)))
+        if not a[5] and r["violated"] not in ("EagerCap", "PauseBound"):
+            raise V.MachineryError(f"Pipeline.tla without backpressure satisfies the C13 bounds ({r['violated']}): no teeth")
 
 
 def run(chk):
     V.quiet_threads()
     quick = chk.tier == "quick"
+    pipeline_model(chk)
     # mailbox level
     cs = [c for c in c05.all_configs(max_msg=3 if quick else 5, max_sub=3 if quick else 3, caps=(1, 2) if quick else (1, 2, 3, 4),
                                      perm_msgs=0, fut=False) if c["NMsg"] >= 1]
@@ -209,6 +259,8 @@ def run(chk):
     if not (r.ok or r.violated):
         raise V.MachineryError("BackpressureObs failed: " + r.out[-2000:])
     rejected = sorted({int(m.group(1)) for m in re.finditer(r"tid = (\d+)", r.out)})
+    # the chain runs are also validated, step by step, against spec/Pipeline.tla (PauseBound and EagerCap evaluated along the traces)
+    c06.relay_validate(chk, [dict(sc=pr["sc"], seed=pr["seed"], sched="random", relay=pr["relay"]) for pr in pres if pr.get("relay")], pid="C13")
     for i, pr in enumerate(pres, 1):
         chk.case(key=json.dumps([pr["sc"], pr["seed"]], default=str), nontrivial=True)
         chk.traces += 1
